@@ -42,7 +42,10 @@ Catalogue ==
         Rec(<<My, Local>>, 1, 4, <<<<10, 9, 9, 9>>>>),
         \* the rest of the mailbox family (MAILB = MB, MG, MR; MAILA = MX) and a type with two names
         Rec(<<Foo, Bar>>, 7, 1, <<<<Foobar>>>>), Rec(<<Foo, Bar>>, 9, 1, <<<<Bar>>>>), Rec(<<Foobar>>, 9, 1, <<<<Foo, Bar>>>>),
-        Rec(<<Bar>>, 14, 1, <<<<A1, Mysrv, Local>>, <<Foobar>>>>)}
+        Rec(<<Bar>>, 14, 1, <<<<A1, Mysrv, Local>>, <<Foobar>>>>),
+        \* opaque content: a NULL record, and a type the crate has no name for
+        \* (5 and 6 bytes: TLC orders tuples by length first, and no name here has 5 or 6 labels)
+        Rec(<<Foo, Bar>>, 10, 1, <<<<1, 2, 3, 4, 5>>>>), Rec(<<Foobar>>, 65280, 1, <<<<4, 5, 6, 7, 8, 9>>>>)}
 
 \* expiry mode works on a handful of records so that the same record is received again and again
 ExpiryCat == {r \in Catalogue : r.type = 1 /\ r.rd = <<<<10, 0, 0, 1>>>> /\ r.name \in {<<Mysrv, Local>>, <<A1, Mysrv, Local>>, <<Foobar>>}}
